@@ -46,6 +46,7 @@ for key, info in SEEDS.items():
         'checks_run_at_first_contact': caught,
         'detected_by': info['detected_by'],
         'strengthening': info.get('strengthened', 'none needed'),
+        **({'obsolete': info['obsolete']} if 'obsolete' in info else {}),
     }
     json.dump(meta, open(os.path.join(dst, 'meta.json'), 'w'), indent=1)
     print('stored', key, info['detected_by'])
